@@ -74,6 +74,19 @@ def run(chk: Check) -> None:
                    "%s uses the edge multigraph as '%s': only CFG.__init__ creates it and only "
                    "add/discard/clear may mutate it" % (f.qualname, kind), 1)
     chk.floor("R11.1", "uses of _nxg", n_uses, 12)
+    for f in list(cfgc.methods.values()) + [x for p in cfgc.props.values() for x in (p.getter, p.setter) if x]:
+        for n in walk_no_nested(f.node):
+            if isinstance(n, (ast.Assign, ast.AugAssign, ast.AnnAssign)):
+                for t in (n.targets if isinstance(n, ast.Assign) else [n.target]):
+                    base = t
+                    while isinstance(base, ast.Subscript):
+                        base = base.value
+                    p = attr_path(base)
+                    if p and len(p) == 2 and p[0] == f.self_name and p[1] != "_nxg":
+                        chk.ob("R11.1", "%s:second-state(%s)" % (f.qualname, p[1]), False, f.loc(n),
+                               "%s keeps state besides the edge multigraph (self.%s): membership can "
+                               "disagree with the graph after clear()/mixins that do not know about it"
+                               % (f.qualname, p[1]), 1)
     ir_init = repo.cls("IR").methods["__init__"]
     copies = [n for n in walk_no_nested(ir_init.node) if isinstance(n, ast.Assign)
               and attr_path(n.targets[0]) == (ir_init.self_name, "cfg")]
